@@ -9,8 +9,8 @@ import pickle
 from .common import add_failure, bump, load_known, new_outcome
 
 PROP = "C10"
-PROPS_FILES = ["CogentModel/Props/C10.lean", "CogentModel/Props/C10Tree.lean", "CogentModel/Props/C10Registry.lean", "CogentModel/Props/C10Rich.lean"]
-LEAN_TARGETS = ["CogentModel.Props.C10", "CogentModel.Props.C10Tree", "CogentModel.Props.C10Registry", "CogentModel.Props.C10Rich"]
+PROPS_FILES = ["CogentModel/Props/C10.lean", "CogentModel/Props/C10Tree.lean", "CogentModel/Props/C10Registry.lean", "CogentModel/Props/C10Rich.lean", "CogentModel/Props/C10Coll.lean", "CogentModel/Props/C10GetClass.lean"]
+LEAN_TARGETS = ["CogentModel.Props.C10", "CogentModel.Props.C10Tree", "CogentModel.Props.C10Registry", "CogentModel.Props.C10Rich", "CogentModel.Props.C10Coll", "CogentModel.Props.C10GetClass"]
 DRIVER = "drv_c10"
 TRUSTED = [
     "hand-written model lean/CogentModel/Model/RichDict.lean of SeqView.to_rich_dict/from_rich_dict/copy(sliced=True), "
@@ -619,6 +619,8 @@ def correspondence(ctx):
     from . import c10_registry
 
     c10_registry.registry_corr(ctx, out)
+    c10_registry.coll_corr(ctx, out)
+    c10_registry.get_class_corr(ctx, out)
     return out
 
 
